@@ -55,8 +55,10 @@ func (its *Manager) GetLatestDatatype() (iface.Datatype, uint64, errors.OrdaErro
 		if err = datatype.SetMetaAndSnapshot([]byte(snapshotDoc.Meta), snapshotDoc.Snapshot); err != nil {
 			return nil, 0, err
 		}
-		datatype.ResetWired()
 	}
+	// the datatype exists already, with or without a stored snapshot: the creation operation
+	// of this fresh instance must never be pushed into its log
+	datatype.ResetWired()
 	// only up to the recorded end of the log: anything beyond it was never committed
 	opList, sseqList, err := its.managers.Mongo.GetOperations(its.ctx, its.datatypeDoc.DUID, lastSseq+1, its.datatypeDoc.Sseq.End)
 	if err != nil {
